@@ -6,6 +6,8 @@ import Dmn.Lemmas.DecSqrt
 import Dmn.Lemmas.DecParity
 import Dmn.Lemmas.DecModulo
 import Dmn.Lemmas.DecFeel
+import Dmn.Lemmas.Transcend
+import Dmn.Lemmas.DecCohort
 
 /-!
 # C02 — FEEL numbers compute as IEEE 754-2008 decimal128 (34 digits, half-even)
@@ -536,5 +538,198 @@ theorem feel_decimal_finite_counterexample :
 /-- F7b witness: `modulo(1E+6111, 3E-6176)` is `-Infinity` -/
 theorem feel_modulo_finite_counterexample :
     FNum.modulo (.fin ⟨false, 1, 6111⟩) (.fin ⟨false, 3, -6176⟩) = .inf true := by decide +kernel
+
+/-! ## representation independence: the result depends on the value only
+
+A decimal128 value has up to 34 representations (`c·10^j` at exponent `e − j`); computed numbers
+are reduced, literals are not.  `SameValue a a'` says that two triples denote the same value. -/
+
+/-- two representations of one value are the same integer at every common scale -/
+theorem sameValue_scaled (a a' : D128) (h : SameValue a a') (s : Int) (hs : s ≤ min a.exp a'.exp) :
+    scaled a s = scaled a' s := by
+  unfold SameValue at h
+  rw [scaled_shift a s _ hs (by omega), scaled_shift a' s _ hs (by omega), h]
+
+example : SameValue ⟨false, 1001, 1⟩ ⟨false, 10010, 0⟩ ∧ (-3 : Int) ≤ min (1 : Int) 0 := by decide
+
+/-- comparison depends on the values only: any representation of either operand gives the same
+answer (`1001E+1` against `10010`, `10.0` against `1E+1`) -/
+theorem cmp_congr (a a' b b' : D128) (ha : SameValue a a') (hb : SameValue b b') :
+    D128.cmp a b = D128.cmp a' b' := by
+  have hs1 : min (min a.exp a'.exp) (min b.exp b'.exp) ≤ min a.exp a'.exp := by omega
+  have hs2 : min (min a.exp a'.exp) (min b.exp b'.exp) ≤ min b.exp b'.exp := by omega
+  rw [cmp_at_scale a b (min (min a.exp a'.exp) (min b.exp b'.exp)) (by omega) (by omega),
+    cmp_at_scale a' b' (min (min a.exp a'.exp) (min b.exp b'.exp)) (by omega) (by omega),
+    sameValue_scaled a a' ha _ hs1, sameValue_scaled b b' hb _ hs2]
+
+example : SameValue ⟨false, 1001, 1⟩ ⟨false, 10010, 0⟩ ∧ SameValue ⟨true, 5, 0⟩ ⟨true, 500, -2⟩ := by decide
+
+/-- `=`, `<`, `<=` of `FeelNumber` (`PartialEq` / `PartialOrd`) depend on the values only -/
+theorem feel_cmp_congr (a a' b b' : D128) (ha : SameValue a a') (hb : SameValue b b') :
+    FNum.eq (.fin a) (.fin b) = FNum.eq (.fin a') (.fin b') ∧
+      FNum.cmp (.fin a) (.fin b) = FNum.cmp (.fin a') (.fin b') := by
+  unfold FNum.eq FNum.cmp D128R.cmp?
+  simp only []
+  rw [cmp_congr a a' b b' ha hb]
+  exact ⟨rfl, rfl⟩
+
+example : SameValue ⟨false, 10, -1⟩ ⟨false, 1, 0⟩ ∧ SameValue ⟨false, 2, 0⟩ ⟨false, 2, 0⟩ := by decide
+
+/-- a value equals each of its representations -/
+theorem cmp_sameValue (a a' : D128) (h : SameValue a a') : D128.cmp a a' = .eq := by
+  rw [cmp_at_scale a a' (min a.exp a'.exp) (by omega) (by omega), compare_int_eq]
+  exact h
+
+example : SameValue ⟨false, 1, 1⟩ ⟨false, 10, 0⟩ := by decide
+
+/-- negation and `abs` keep the representation they are given, and map representations of one
+value to representations of one value -/
+theorem neg_abs_congr (a a' : D128) (h : SameValue a a') :
+    SameValue (negate a) (negate a') ∧ SameValue (D128.abs a) (D128.abs a') := by
+  unfold SameValue at *
+  have e1 := (neg_exact a (min a.exp a'.exp))
+  have e2 := (neg_exact a' (min a.exp a'.exp))
+  have e3 := (abs_exact a (min a.exp a'.exp))
+  have e4 := (abs_exact a' (min a.exp a'.exp))
+  refine ⟨?_, ?_⟩
+  · rw [e1.2.1, e2.2.1, e1.1, e2.1, h]
+  · rw [e3.2.2.1, e4.2.2.1]
+    obtain ⟨p1, p2, _⟩ := e3
+    obtain ⟨q1, q2, _⟩ := e4
+    rw [h] at p1
+    split at p1 <;> split at q1 <;> omega
+
+example : SameValue ⟨true, 1001, 1⟩ ⟨true, 10010, 0⟩ := by decide
+
+
+/-- `reduce` — which `FeelNumber` applies to every result of `+ - * / floor ceiling sqrt ln **`
+(`number.rs`) — maps all representations of one value (with one sign: `-0` and `+0` stay apart) to
+one triple: computed numbers carry no trace of the representation of what they were computed to -/
+theorem reduce_congr (a b : D128) (ha : WF a) (hb : WF b) (h : SameValue a b) (hn : a.neg = b.neg) :
+    reduce a = reduce b :=
+  D128.reduce_congr a b ha hb h hn
+
+example : WF ⟨false, 10010, 0⟩ ∧ WF ⟨false, 1001, 1⟩ ∧ SameValue ⟨false, 10010, 0⟩ ⟨false, 1001, 1⟩ ∧
+    reduce ⟨false, 10010, 0⟩ = ⟨false, 1001, 1⟩ := by decide
+
+/-- two results of equal value and sign are one `FeelNumber` after the `reduce` of the operators
+(`D128R.reduce`); infinities and NaN are untouched -/
+theorem result_reduce_congr (a b : D128) (ha : WF a) (hb : WF b) (h : SameValue a b) (hn : a.neg = b.neg) :
+    (D128R.fin a).reduce = (D128R.fin b).reduce := by
+  show D128R.fin (D128.reduce a) = D128R.fin (D128.reduce b)
+  rw [D128.reduce_congr a b ha hb h hn]
+
+example : WF ⟨true, 250, -2⟩ ∧ WF ⟨true, 25, -1⟩ ∧ SameValue ⟨true, 250, -2⟩ ⟨true, 25, -1⟩ := by decide
+
+/-! ## the enclosures that judge `log` and `exp` (`Model/Transcend.lean`)
+
+`Transcend.Encl lo hi x`: the fixed-point interval `[lo, hi]/10^130` contains the rational `x`.
+Proved: every interval operation rounds outwards; the loops enclose the rational partial sums of
+the two series; `twoAtanh` / `expSmall` enclose everything between the partial sum and the partial
+sum plus the tail bound written in the code; the argument reductions are exact; `lnGe1` and
+`lnEnclosure` add the enclosed multiples of `ln 2` and `ln 10`.  The remaining assumption is
+analytic (the true value lies between the partial sum and the partial sum plus that tail bound;
+the functional equations of `ln` and `exp`). -/
+
+open Dmn.Transcend in
+/-- the interval operations of the enclosure arithmetic round outwards: a fraction, a sum, a
+product of non-negative quantities, a quotient by a positive natural, a difference, a multiple -/
+theorem enclosure_ops_round_outwards :
+    (∀ zn zd : Nat, 0 < zd → Encl (zn * S / zd) (cdiv (zn * S) zd) ((zn : ℚ) / (zd : ℚ))) ∧
+    (∀ (a b c d : Nat) (x y : ℚ), Encl a b x → Encl c d y → Encl (a + c) (b + d) (x + y)) ∧
+    (∀ (a b c d : Nat) (x y : ℚ), Encl a b x → Encl c d y → 0 ≤ x → 0 ≤ y →
+      Encl (a * c / S) (cdiv (b * d) S) (x * y)) ∧
+    (∀ (a b : Nat) (x : ℚ) (k : Nat), Encl a b x → 0 < k → Encl (a / k) (cdiv b k) (x / (k : ℚ))) ∧
+    (∀ (a b c d : Nat) (x y : ℚ), Encl a b x → Encl c d y → y ≤ x → Encl (a - d) (b - c) (x - y)) ∧
+    (∀ (a b : Nat) (x : ℚ) (j : Nat), Encl a b x → Encl (j * a) (j * b) ((j : ℚ) * x)) :=
+  ⟨encl_ofFrac, fun _ _ _ _ _ _ hx hy => encl_add hx hy, fun _ _ _ _ _ _ hx hy x0 y0 => encl_mul hx hy x0 y0,
+    fun _ _ _ k hx hk => encl_divNat hx k hk, fun _ _ _ _ _ _ hx hy h => encl_sub hx hy h,
+    fun _ _ _ j hx => encl_nsmul hx j⟩
+
+open Dmn.Transcend in
+example : Encl 0 0 0 := by simp [Encl]
+
+open Dmn.Transcend in
+/-- the loop of `twoAtanh` encloses, for every rational `z ≥ 0` and every number of steps, the next
+odd power of `z` and the partial sum `Σ_{i<n} z^(2i+1)/(2i+1)` -/
+theorem atanh_series_enclosed (z : ℚ) (z0 : 0 ≤ z) (z2lo z2hi : Nat) (hz2 : Encl z2lo z2hi (z ^ 2))
+    (steps n tlo thi slo shi : Nat) (ht : Encl tlo thi (z ^ (2 * n + 1))) (hs : Encl slo shi (atanhPartial z n)) :
+    Encl (atanhLoop steps n z2lo z2hi tlo thi slo shi).1 (atanhLoop steps n z2lo z2hi tlo thi slo shi).2.1
+        (z ^ (2 * (n + steps) + 1)) ∧
+      Encl (atanhLoop steps n z2lo z2hi tlo thi slo shi).2.2.1 (atanhLoop steps n z2lo z2hi tlo thi slo shi).2.2.2
+        (atanhPartial z (n + steps)) :=
+  atanhLoop_sound z z0 z2lo z2hi hz2 steps n tlo thi slo shi ht hs
+
+open Dmn.Transcend in
+example : (0 : ℚ) ≤ 0 ∧ Encl 0 0 ((0 : ℚ) ^ 2) ∧ Encl 0 0 ((0 : ℚ) ^ (2 * 0 + 1)) ∧ Encl 0 0 (atanhPartial 0 0) := by
+  simp [Encl, atanhPartial]
+
+open Dmn.Transcend in
+/-- `twoAtanh zn zd` contains every `x` between twice the 140-term partial sum at `z = zn/zd` and
+that plus twice the tail bound `9/8·z^281` (for `0 ≤ z ≤ 1/3` the true `2·atanh z = ln((1+z)/(1−z))`
+lies there: the assumption) -/
+theorem twoAtanh_encloses_series (zn zd : Nat) (hd : 0 < zd) (x : ℚ)
+    (hlo : 2 * atanhPartial ((zn : ℚ) / (zd : ℚ)) 140 ≤ x)
+    (hhi : x ≤ 2 * (atanhPartial ((zn : ℚ) / (zd : ℚ)) 140 + ((zn : ℚ) / (zd : ℚ)) ^ 281 * (9 / 8))) :
+    Encl (twoAtanh zn zd).1 (twoAtanh zn zd).2 x :=
+  twoAtanh_encloses zn zd hd x hlo hhi
+
+open Dmn.Transcend in
+example : (0 : Nat) < 3 ∧ 2 * atanhPartial ((1 : ℚ) / 3) 140 ≤ 2 * atanhPartial ((1 : ℚ) / 3) 140 ∧
+    2 * atanhPartial ((1 : ℚ) / 3) 140 ≤ 2 * (atanhPartial ((1 : ℚ) / 3) 140 + ((1 : ℚ) / 3) ^ 281 * (9 / 8)) := by
+  refine ⟨by decide, le_refl _, ?_⟩
+  have : (0 : ℚ) ≤ ((1 : ℚ) / 3) ^ 281 * (9 / 8) := by positivity
+  linarith
+
+open Dmn.Transcend in
+/-- `expSmall rlo rhi` contains, for every rational `r ≥ 0` in `[rlo, rhi]`, every `x` between the
+160-term partial sum of the exponential series at `r` and that plus the tail bound `2·r^160/160!`
+(for `0 ≤ r ≤ 3` the true `exp r` lies there: the assumption) -/
+theorem expSmall_encloses_series (rlo rhi : Nat) (r : ℚ) (r0 : 0 ≤ r) (hr : Encl rlo rhi r) (x : ℚ)
+    (hlo : expPartial r 160 ≤ x) (hhi : x ≤ expPartial r 160 + 2 * expTerm r 160) :
+    Encl (expSmall rlo rhi).1 (expSmall rlo rhi).2 x :=
+  expSmall_encloses rlo rhi r r0 hr x hlo hhi
+
+open Dmn.Transcend in
+example : (0 : ℚ) ≤ 0 ∧ Encl 0 0 0 ∧ expPartial 0 160 ≤ expPartial 0 160 ∧
+    expPartial 0 160 ≤ expPartial 0 160 + 2 * expTerm 0 160 := by
+  refine ⟨le_refl _, by simp [Encl], le_refl _, ?_⟩
+  have := expTerm_nonneg 0 (le_refl _) 160
+  linarith
+
+open Dmn.Transcend in
+/-- the argument reduction of `lnEnclosure` is exact: `c·10^e = m·10^k` with
+`m = c/10^(d−1) ∈ [1, 10)`, `k = e + d − 1`, `d` the digit count of `c` -/
+theorem ln_argument_reduction_exact (c : Nat) (e : Int) (hc : c ≠ 0) :
+    (c : ℚ) * (10 : ℚ) ^ e = ((c : ℚ) / (10 : ℚ) ^ (digits c - 1)) * (10 : ℚ) ^ (e + (digits c : Int) - 1) ∧
+      1 ≤ (c : ℚ) / (10 : ℚ) ^ (digits c - 1) ∧ (c : ℚ) / (10 : ℚ) ^ (digits c - 1) < 10 :=
+  lnReduce_exact c e hc
+
+example : (10010 : Nat) ≠ 0 := by decide
+
+open Dmn.Transcend in
+/-- the halving of `lnGe1` is exact: the denominator becomes `den·2^i`, the quotient lands in
+`[1, 2)`, and the argument `(num − d')/(num + d')` of the series lies in `[0, 1/3)` -/
+theorem ln_halving_exact (num den : Nat) (h1 : den ≤ num) (h2 : num < den * 2 ^ 41) :
+    (halve 40 num den 0).1 = den * 2 ^ (halve 40 num den 0).2 ∧ (halve 40 num den 0).1 ≤ num ∧
+      num < 2 * (halve 40 num den 0).1 ∧
+      3 * (num - (halve 40 num den 0).1) < num + (halve 40 num den 0).1 :=
+  lnGe1_reduce num den h1 h2
+
+example : (1 : Nat) ≤ 10 ∧ (10 : Nat) < 1 * 2 ^ 41 := by decide
+
+open Dmn.Transcend in
+/-- `lnEnclosure` is the enclosure of the series plus the enclosed multiples of `ln 2` and `ln 10`:
+if `[twoAtanh …]` contains `y`, `ln2` contains `l2` and `ln10` contains `t`, then
+`lnEnclosure c e` contains `y + j·l2 + k·t` (`j` halvings, `k = e + d − 1`) -/
+theorem lnEnclosure_composes (c : Nat) (e : Int) (y l2 t : ℚ)
+    (hy : Encl (twoAtanh (c - (halve 40 c (10 ^ (digits c - 1)) 0).1) (c + (halve 40 c (10 ^ (digits c - 1)) 0).1)).1
+      (twoAtanh (c - (halve 40 c (10 ^ (digits c - 1)) 0).1) (c + (halve 40 c (10 ^ (digits c - 1)) 0).1)).2 y)
+    (h2 : Encl ln2.1 ln2.2 l2) (ht : Encl ln10.1 ln10.2 t) :
+    ((lnEnclosure c e).1 : ℚ) ≤
+        (y + ((halve 40 c (10 ^ (digits c - 1)) 0).2 : ℚ) * l2 + ((e + (digits c : Int) - 1 : Int) : ℚ) * t) * (S : ℚ) ∧
+      (y + ((halve 40 c (10 ^ (digits c - 1)) 0).2 : ℚ) * l2 + ((e + (digits c : Int) - 1 : Int) : ℚ) * t) * (S : ℚ) ≤
+        ((lnEnclosure c e).2 : ℚ) :=
+  lnEnclosure_encloses c e _ t (lnGe1_encloses c _ y l2 hy h2) ht
 
 end Dmn.Props.C02
